@@ -33,6 +33,11 @@ impl<Fd: AsFd + Sized> HotfixRustixFd for Fd {
 //@prove syscalls.fstatat
 //@prove syscalls.statx
 //@prove syscalls.openat2 u05
+//@prove syscalls.fsopen
+//@prove syscalls.fsconfig_set_string
+//@prove syscalls.fsconfig_create
+//@prove syscalls.fsmount
+//@prove syscalls.open_tree
 }
 } // verus!
 fn main() {}
